@@ -483,26 +483,29 @@ impl Interpreter {
                 let length = state.stack.pop_number()?;
                 let bytes = state.stack.pop_bytes()?;
 
-                if length < 1 || length < bytes.len() as i32 {
+                if length < 0 {
+                    return Err(InterpreterError::InvalidStackOperation("OP_NUM2BIN failed, provide length was out of range"));
+                }
+                let length = length as usize;
+
+                // Start from the minimal encoding of the number (zero is the empty string)
+                let mut minimal: Vec<Vec<u8>> = vec![];
+                minimal.push_bigint(stack_trait::to_bigint(&bytes)?)?;
+                let mut bin_array = minimal.pop_bytes()?;
+                if bin_array.len() > length {
                     return Err(InterpreterError::InvalidStackOperation("OP_NUM2BIN failed, provide length was out of range"));
                 }
 
-                // Fill the data in, extend the buffer to the length of the length parameter
-                let (sign, mut bin_array) = stack_trait::to_bigint(&bytes)?.to_bytes_le();
-                bin_array.resize(length as usize, 0);
-                let bin_array_len = bin_array.len();
-
-                let full = bin_array[bin_array_len - 1] & 0x80;
-                if full > 0 {
-                    bin_array.push(0x00);
+                // Pad with zero bytes up to the requested length, moving the sign bit into the last byte
+                if bin_array.len() < length {
+                    let mut sign_bit = 0x00;
+                    if let Some(last) = bin_array.last_mut() {
+                        sign_bit = *last & 0x80;
+                        *last &= 0x7f;
+                    }
+                    bin_array.resize(length - 1, 0);
+                    bin_array.push(sign_bit);
                 }
-
-                // // Add 0x00 to the end if last byte is positive sign
-                match sign {
-                    Sign::Plus => bin_array[bin_array_len - 1] |= 0x00,
-                    Sign::Minus => bin_array[bin_array_len - 1] |= 0x80,
-                    Sign::NoSign => return Err(InterpreterError::InvalidStackOperation("OP_NUM2BIN failed, invalid sign on bigint.")),
-                };
                 state.stack.push_bytes(bin_array);
             }
             OpCodes::OP_BIN2NUM => {
